@@ -55,3 +55,41 @@ class MPBFixedContext__round_at(Contract):
 
     def raises(self, x, n, exact):
         return mpbx_raises(self, x, n, exact)
+
+
+class MPBFixedContext_round(Contract):
+    target = 'fpy2.number.context.mpb_fixed:MPBFixedContext.round'
+    params = {'self': 'MPBFixedContext', 'x': 'RealFloat | Float', 'exact': 'bool'}
+    returns = 'Float'
+    properties = ['C01']
+    binds = {'result._ctx': 'self'}
+    options = {'noax_first_ms': 8000}
+
+    def pre(self, x, exact):
+        return {'deterministic': self.num_randbits is not None and self.num_randbits == 0,
+                'fmt_ordinals': mpbx_ordinals(self)}
+
+    def post(self, x, exact, result):
+        return mpbx_post(self, x, None, exact, result)
+
+    def raises(self, x, exact):
+        return mpbx_raises(self, x, None, exact)
+
+
+class MPBFixedContext_round_at(Contract):
+    target = 'fpy2.number.context.mpb_fixed:MPBFixedContext.round_at'
+    params = {'self': 'MPBFixedContext', 'x': 'RealFloat | Float', 'n': 'int', 'exact': 'bool'}
+    returns = 'Float'
+    properties = ['C01']
+    binds = {'result._ctx': 'self'}
+    options = {'noax_first_ms': 8000}
+
+    def pre(self, x, n, exact):
+        return {'deterministic': self.num_randbits is not None and self.num_randbits == 0,
+                'fmt_ordinals': mpbx_ordinals(self)}
+
+    def post(self, x, n, exact, result):
+        return mpbx_post(self, x, n, exact, result)
+
+    def raises(self, x, n, exact):
+        return mpbx_raises(self, x, n, exact)
